@@ -5,7 +5,8 @@ import os
 import subprocess
 
 ROOT = os.path.dirname(os.path.dirname(os.path.abspath(__file__)))
-NOTE = ("trusted: TLC/SANY; HashPrim.java (SHA-256, SHAKE256, hex; cross-checked with hashlib on every run); the Rust harness as a "
+NOTE = ("trusted: TLC/SANY (and Apalache for the inductive step of C03/C04); HashPrim.java (SHA-256, SHAKE256, hex; cross-checked on every run with "
+        "hashlib AND with the pure TLA+ definitions Sha256Pure.tla / KeccakPure.tla); the Rust harness and the call-tracing hook as "
         "faithful recorder (negative controls: a corrupted record and a mutated specification are rejected); the TLA+ transcription of "
         "RFC 8554 / Appendix B / hash-sigs conventions (anchored by the RFC test vectors and spec-internal lemmas)")
 
@@ -16,17 +17,21 @@ CLAIMS = {
             "trace validation against executable TLA+ reference (TLC), scenario walks over lifetimes"),
     "C02": ("model_checking", "TLC evaluates the TLA+ transcription of RFC 8554 section 6.3 / Alg. 4b / 6a on the very bytes the code saw - valid triples and "
             "structure-aware mutations of every field enumerated from the spec's format grammar (SigLayout/PubLayout); the outcome of every entry point "
-            "must equal the specification's",
-            "trace validation against TLA+ RFC 8554 verifier; mutation space enumerated from the spec's SigLayout"),
+            "must equal the specification's; HssSym.tla (symbolic section 6.3) is model checked over all recombinations of released components "
+            "(accepted = contiguous segments of released chains; dropped checks yield counterexamples) and its recombinations are rebuilt from real "
+            "signature bytes: symbolic verdict = byte-level reference = code",
+            "trace validation against TLA+ RFC 8554 verifier; mutation space enumerated from the spec's SigLayout and from the symbolic model HssSym (TLC)"),
     "C03": ("model_checking", "HssApi.tla (caller/library protocol with crashes, callback plans, reloads, both APIs) is model checked exhaustively for small "
             "shapes (NoReuse, ReleaseSafe, Monotone, DigitRule; negative models must yield counterexamples); behaviours of the model are replayed on the "
             "real library and the recorded executions are replayed through the SAME actions instantiated with byte-level operators, evaluating every "
-            "invariant on concrete tree identifiers and leaf indices in every state",
-            "TLC model checking of HssApi + TLC-generated walks replayed on the code + trace validation (TraceApi)"),
+            "invariant on concrete tree identifiers and leaf indices in every state; an inductive invariant of the integer reduction of the protocol "
+            "(CounterInd.tla) is discharged by Apalache for every lifetime T",
+            "TLC model checking of HssApi + Apalache inductive invariant (unbounded lifetime) + TLC-generated walks replayed on the code + trace validation (TraceApi)"),
     "C04": ("model_checking", "callback protocol (at most once, complete successor key, signature only after acceptance, nothing on failure) as invariants/action "
             "properties of HssApi with crashes between all steps; every recorded sign call is replayed step by step through the model and compared "
-            "(callback count, argument, result, stored key) for all plans {accept, reject, crash before/after persisting} and bad keys",
-            "TLC model checking of HssApi + trace validation (TraceApi) of fault-injected walks"),
+            "(callback count, argument, result, stored key) for all plans {accept, reject, crash before/after persisting} and bad keys; crash safety "
+            "(released counters below the stored counter) is part of the inductive invariant Apalache discharges for every lifetime",
+            "TLC model checking of HssApi + Apalache inductive invariant + trace validation (TraceApi) of fault-injected walks"),
     "C05": ("model_checking", "lifetime accounting, wipe at the last leaf and refusal afterwards are invariants of the model; complete lifetimes of the real "
             "library under every callback plan are recorded with a lifetime query around every step and validated (value = 2^T - counter, wiped key "
             "bytes, dead afterwards); pure counter arithmetic for tall shapes is covered by C13's hook validation",
@@ -37,14 +42,16 @@ CLAIMS = {
             "trace validation (TLC) over exhaustive prefix/header spaces"),
     "C07": ("model_checking", "TLC recomputes every released signature from (key bytes, message) with the TLA+ reference signer (pre-image layouts, digit order, "
             "checksum, chain indices, path order, randomizer derivation all restated in TLA+) and demands byte equality, for 6 hashes x W x heights x levels "
-            "x counters",
-            "byte-exact trace validation against TLA+ reference signer"),
+            "x counters, and for every keygen/sign/verify call the repository's OWN test suite makes (recorded by the call-tracing hook)",
+            "byte-exact trace validation against TLA+ reference signer (harness scenarios + traces recorded from the repository's test suite)"),
     "C08": ("model_checking", "TLC recomputes private-key blob, public key, top-level seed and tree identifier from (hash, parameter list, seed) with the TLA+ "
-            "transcription of the hash-sigs derivation and demands byte equality",
-            "byte-exact trace validation against TLA+ key derivation"),
+            "transcription of the hash-sigs derivation and demands byte equality; child seed / identifier, randomizer and chain start values are "
+            "replayed through an accessor for leaf numbers up to 2^25-1 (no affordable tree reaches them)",
+            "byte-exact trace validation against TLA+ key derivation (keygen events + derivation accessor)"),
     "C09": ("model_checking", "SpecKeygen/SpecSign take only (hash, params, seed) / (hash, key, message): every keygen/sign event of every walk (interleaved keys, both "
-            "APIs, reloads, failures before) is validated against a function of its logged inputs only, and the ghost map inputs->outputs must stay a function",
-            "trace validation: outputs judged as a function of logged inputs; ghost determinism map"),
+            "APIs, reloads, failures before) is validated against a function of its logged inputs only, and the ghost map inputs->outputs must stay a function; a key that stays in memory is driven "
+            "through aux-buffer histories of HssAux.tla (buffer changes owner / is tampered with between calls) against the byte-level function",
+            "trace validation: outputs judged as a function of logged inputs; ghost determinism map; threads / subprocess / in-memory-key histories"),
     "C11": ("model_checking", "outcome domain {ok(result), err}: parameter-list lengths 0..10, key lengths 0..64 through every entry point, all 256 values of each parameter "
             "byte, counters at/beyond 2^T, wiped keys, short/truncated/corrupted aux buffers are driven through the real code; a panic is unmatchable, an "
             "error where the spec computes a result (or vice versa) is a deviation, and no callback/signature may appear on error paths",
@@ -55,8 +62,10 @@ CLAIMS = {
             "TLC exhaustive lemma checking (MC_Ots) + hook trace validation"),
     "C10": ("model_checking", "SpecKeygen/SpecSign do not take the aux buffer as an argument: every keygen/sign event with ANY buffer (all lengths 0..full+n, fresh, "
             "garbage, other seed, padded, truncated, every single-bit corruption of a valid buffer, left over from signing) is validated byte-for-byte "
-            "against the no-aux reference; after keygen on a fresh buffer the shrunk length, level word, cached levels and MAC are recomputed by Aux.tla",
-            "byte-exact trace validation against TLA+ reference over enumerated aux-buffer classes"),
+            "against the no-aux reference; after keygen on a fresh buffer the shrunk length, level word, cached levels and MAC are recomputed by Aux.tla; "
+            "HssAux.tla (one buffer across calls: trust decision, fill, MAC, tampering) is model checked (AuxTransparent; no-MAC-check and no-clear variants "
+            "yield counterexamples) and its behaviours (simulation + scripted) are replayed on the code",
+            "TLC model checking of HssAux + byte-exact trace validation over enumerated aux-buffer classes and multi-step buffer histories"),
     "C13": ("model_checking", "MC_Arith checks on the spec that the mathematical digit rule (bit slices of the 64-bit counter) equals the shift-and-mask algorithm, "
             "that digits recompose, successor/last/lifetime arithmetic and its agreement with integer arithmetic, for all height tuples and boundary counters "
             "(tall lists included); the library's three pure functions are replayed through the hook for tuples x boundary counters the spec enumerates, and "
@@ -78,8 +87,9 @@ CLAIMS = {
 }
 
 ENGINE = {"name": "tla-trace", "path": "spec/", "kind_free_text":
-          "TLA+ specification (spec/*.tla: data layer Bytes/Hash/LmOts/Lms/HssKey/Hss/Aux, protocol layer HssApi, trace specs TraceBytes/TraceApi, "
-          "generators Gen*.tla, model-checking configs MC_*) checked with TLC; Rust harness (harness/) records the real library built from /repo with "
+          "TLA+ specification (spec/*.tla: data layer Bytes/Hash/LmOts/Lms/HssKey/Hss/Aux with pure TLA+ hash definitions, protocol layers HssApi / HssAux / "
+          "HssSym / FastVerify, trace specs TraceBytes/TraceApi, generators Gen*.tla, model-checking configs MC_*, Apalache module spec/apalache/CounterInd) "
+          "checked with TLC (and Apalache); Rust harness (harness/) and the call-tracing hook record the real library built from /repo with "
           "--cfg hbs_lms_verif; tools/check.py orchestrates"}
 
 
